@@ -1,34 +1,36 @@
 """Configuration of ./check for C06 (see tools/props.py)."""
 ENTRY = {'coq_dir': 'C06',
- 'coq_deps': ['Mgr', 'C10'],
+ 'coq_deps': ['Mgr', 'C10', 'Tcp', 'Ts'],
  'model_files': ['Glue'],
  'harness': 'c05',
  'harness_extra': '--focus limits',
  'cases': {'quick': 1500, 'thorough': 400000},
- 'consts': [],
- 'rule': 'same harness as C05 (two scripted transports TCP + WebSocket, dials spanning both, the user-facing handle) with the '
-         'generator biased to small limits (1..3) so that the counted sets saturate and accept failures as ordinary events; a '
-         "third of the cases open with a scripted 'crowd' shape under limits of 3..5 (one side sometimes unlimited): a peer is "
-         'given two connections (inbound/inbound, outbound/inbound, or one inbound with a dial in flight), a further connection '
-         'for the same peer finishes negotiating while the global count is below the limit (refused by the per-peer rule, not by '
-         'the limit), then other peers arrive (inbound, pending-inbound, outbound) until the limits should be reached and '
-         'beyond; the oracle recomputes the ledger of established connections from the events and the accept() calls the '
-         "implementation made (on whichever transport) and checks the per-peer bound, both maxima, 'no leaked slot' (every id in "
-         'the dumped incoming / outgoing sets is an established connection of that direction in the recomputed ledger: '
-         "C06_counted_are_live evaluated on the implementation's dump, so a slot that is not released by a close is reported "
-         "with a replay even before the gate refuses a dial), 'accepted when below the limit' and 'rejection leaves established "
+ 'consts': ['C06_LIMITS_CALL_SITES', 'C06_TRANSPORT_SHAPES_OK'],
+ 'rule': 'same harness as C05 (two scripted transports TCP + WebSocket, dials spanning both, the user-facing handle) '
+         'with the generator biased to small limits (1..3) so that the counted sets saturate and accept failures as '
+         "ordinary events; a third of the cases open with a scripted 'crowd' shape under limits of 3..5 (one side "
+         'sometimes unlimited): a peer is given two connections (inbound/inbound, outbound/inbound, or one inbound '
+         'with a dial in flight), a further connection for the same peer finishes negotiating while the global count '
+         'is below the limit (refused by the per-peer rule, not by the limit), then other peers arrive (inbound, '
+         'pending-inbound, outbound) until the limits should be reached and beyond; the oracle recomputes the ledger '
+         'of established connections from the events and the accept() calls the implementation made (on whichever '
+         "transport) and checks the per-peer bound, both maxima, 'no leaked slot' (every id in the dumped incoming / "
+         'outgoing sets is an established connection of that direction in the recomputed ledger: C06_counted_are_live '
+         "evaluated on the implementation's dump, so a slot that is not released by a close is reported with a replay "
+         "even before the gate refuses a dial), 'accepted when below the limit' and 'rejection leaves established "
          "records untouched' at every step. Non-trivial: trace >= 8 numbers; distinct (case, trace) pairs are counted.",
- 'level_text': "Proof: the cap invariant (every established connection is recorded in its peer's state, ids unique, counted sets "
-               '= established connections of that direction, sizes within the configured maxima, accept futures consistent) is '
-               'inductive over every event the manager handles — with connections arriving over several transports and dials '
-               'spanning several transports —, for every configuration incl. Some 0 and every set of installed transports, under '
-               'the stated uniqueness of connection ids; corollaries: at most two per peer (also one per transport), maxima '
-               'never exceeded, no leaked slot, exact release, accept below the limit, rejection preserves established records, '
-               'dial gate. Model tied to the code step by step.',
+ 'level_text': "Proof: the cap invariant (every established connection is recorded in its peer's state, ids unique, "
+               'counted sets = established connections of that direction, sizes within the configured maxima, accept '
+               'futures consistent) is inductive over every event the manager handles — with connections arriving over '
+               'several transports and dials spanning several transports —, for every configuration incl. Some 0 and '
+               'every set of installed transports, under the stated uniqueness of connection ids; corollaries: at most '
+               'two per peer (also one per transport), maxima never exceeded, no leaked slot, exact release, accept '
+               'below the limit, rejection preserves established records, dial gate. Model tied to the code step by '
+               'step.',
  'level_note': 'Trusted: Coq kernel, extraction, harness + ScriptedTransport hooks. Environment assumption env_ok: an '
-               'established connection never reuses a live id (the transports draw ids from one shared counter), a close notice '
-               'names the owning peer and follows the accept future.',
- 'trusted_base': ['uniqueness of connection ids across transports (one shared atomic counter in the code) is an assumption of '
-                  'the theorems (env_ok)'],
+               'established connection never reuses a live id (the transports draw ids from one shared counter), a '
+               'close notice names the owning peer and follows the accept future.',
+ 'trusted_base': ['uniqueness of connection ids across transports (one shared atomic counter in the code) is an '
+                  'assumption of the theorems (env_ok)'],
  'assumptions': ['two installed transports at most (TCP, WebSocket; quic compiled out of the harness build)',
                  'usize counters do not wrap']}
